@@ -208,6 +208,7 @@ def op_table(npool):
         'arch_off': st.just(['arch_off']),
         'arch_on': st.just(['arch_on']),
         'arch_query': st.just(['arch_query']),
+        'attach': st.just(['attach']),
         'lookup': st.tuples(st.just('lookup'), idx, form).map(list),
         'key': st.tuples(st.just('key'), idx, form).map(list),
     }
@@ -226,14 +227,14 @@ def op_lists(draw, weights, npool, min_ops, max_ops):
 
 
 DEFAULT_WEIGHTS = {'call': 12, 'hammer': 0, 'dump': 1, 'load': 1, 'dumpk': 1, 'loadk': 1, 'clear': 1,
-                   'clearkeep': 1, 'arch_off': 1, 'arch_on': 1, 'arch_query': 0, 'lookup': 0, 'key': 0, 'awrite': 0, 'burst': 0, 'sweep': 0, 'redecorate': 0, 'reopen': 0, 'fork': 0, 'dumpreopen': 0}
+                   'clearkeep': 1, 'arch_off': 1, 'arch_on': 1, 'arch_query': 0, 'lookup': 0, 'key': 0, 'awrite': 0, 'burst': 0, 'sweep': 0, 'attach': 0, 'redecorate': 0, 'reopen': 0, 'fork': 0, 'dumpreopen': 0}
 
 
 @st.composite
 def cache_cases(draw, modules=('std', 'safe'), algos=tuple(H.ALGOS), maxsizes=(1, 2, 3, 5),
                 backends=tuple(H.BACKENDS_ALL), weights=None, max_ops=30, min_ops=1, pool=(3, 7),
                 purges=(False, True), shapes=None, allow_default_keymap=True, ms_pos=(False,),
-                rich_args=False, info_preserving_only=True, mem_weight=0, extra=None, unhashable_ok=False, prefill_pct=0, raising_pct=0,
+                rich_args=False, info_preserving_only=True, mem_weight=0, extra=None, unhashable_ok=False, prefill_pct=0, raising_pct=0, attach_later_pct=0,
                 tols=(None,), deeps=(False,), ignores=(None,), float_pct=0):
     w = dict(DEFAULT_WEIGHTS)
     w.update(weights or {})
@@ -302,7 +303,12 @@ def cache_cases(draw, modules=('std', 'safe'), algos=tuple(H.ALGOS), maxsizes=(1
                 pool_b.append(b)
     npool = len(pool_b)
     ops = draw(op_lists(w, npool, min_ops, max_ops))
-    if prefill_pct and H.backend_archived(backend) and draw(st.integers(0, 99)) < prefill_pct:
+    attach_later = bool(attach_later_pct and backend.startswith('cache_') and backend != 'cache_null' and draw(st.integers(0, 99)) < attach_later_pct)
+    if attach_later:
+        # decorated without an archive; the archive is attached through f.archive(obj) a few operations into the history
+        j = draw(st.integers(0, min(4, len(ops))))
+        ops = ops[:j] + [['attach']] + ops[j:]
+    elif prefill_pct and H.backend_archived(backend) and draw(st.integers(0, 99)) < prefill_pct:
         # another session already filled the archive; this one bulk-loads it first
         k = draw(st.integers(1, npool))
         ops = [['awrite', list(range(k))], ['load']] + ops
@@ -314,6 +320,8 @@ def cache_cases(draw, modules=('std', 'safe'), algos=tuple(H.ALGOS), maxsizes=(1
         'keymap': keymap, 'backend': backend, 'sig': sig, 'rmode': rmode,
         'pool': pool_b, 'ops': ops,
     }
+    if attach_later:
+        case['attach_later'] = True
     if tol is not None:
         case['tol'] = tol
         case['deep'] = draw(st.sampled_from(deeps))
